@@ -89,14 +89,14 @@ def _check_case(case, front):
             if fa:
                 # the caller catches the failure of a step and carries on: the trial that failed was never evaluated, so it is not
                 # part of the record - and the record is still exactly the trials made
-                import contextlib
                 try:
-                    with contextlib.redirect_stdout(run.out):
-                        run.solver.DoGlobalIteration(b)
+                    ok = run.iterate(b)          # (a legitimate float collapse ends the run here as everywhere)
                 except ValueError:
-                    pass
+                    ok = True
                 if run.problem.log:
-                    check_now("after DoGlobalIteration (one evaluation failed on the way)")
+                    check_now("after DoGlobalIteration (one evaluation failed on the way)" if ok else "after float collapse")
+                if not ok:
+                    break
                 continue
             ok = run.iterate(b)
             if run.problem.log:
